@@ -27,12 +27,19 @@ static void body(Env& env, const std::string& stage, int n, const dom::Alphabet&
       std::map<int, int> id; std::map<int, size_t> ranks;   // domain symbol -> actual id ; actual id -> rank
       { auto tr = alpha->GetSymbolTransl(); for (int s : ord) { auto sy = (*tr)(ExplicitTreeAut::StringRank(D->sig.names[s], D->sig.ranks[s])); id[s] = (int)sy; ranks[(int)sy] = D->sig.ranks[s]; } }
       ref::TA A; A.finals = A0.finals; for (auto r : A0.rules) { r.sym = id[r.sym]; A.rules.insert(r); }
+      // the order in which the final states are declared (their container is a hash set: iteration order = history) and whether they are declared before or after the
+      // rules are enumeration dimensions too: every permutation of the final set under the first registration order, ascending / descending under the others
+      std::vector<size_t> fperm(A.finals.begin(), A.finals.end()); size_t nperm = 1; for (size_t i = 2; i <= fperm.size(); i++) nperm *= i; if (oi != 0) nperm = std::min<size_t>(nperm, 2);
+      for (size_t fp = 0; fp < nperm; fp++) {
+      if (fp) { if (oi != 0) std::reverse(fperm.begin(), fperm.end()); else std::next_permutation(fperm.begin(), fperm.end()); }
+      bool finalsFirst = (fp % 2) == 1; if (fp) c.count("class_final_states_declared_in_another_order");
       ExplicitTreeAut a; ExplicitTreeAut::AlphabetType al = alpha; a.SetAlphabet(al);
-      for (auto& r : A.rules) a.AddTransition(r.ch, r.sym, r.par); for (auto f : A.finals) a.SetStateFinal(f);
-      std::string tag = "registration order:"; for (int s : ord) tag += std::string(" ") + D->sig.names[s] + "=" + std::to_string(id[s]);
+      if (finalsFirst) for (auto f : fperm) a.SetStateFinal(f);
+      for (auto& r : A.rules) a.AddTransition(r.ch, r.sym, r.par); if (!finalsFirst) for (auto f : fperm) a.SetStateFinal(f);
+      std::string tag = "registration order:"; for (int s : ord) tag += std::string(" ") + D->sig.names[s] + "=" + std::to_string(id[s]); tag += finalsFirst ? " | final states declared first, in the order" : " | final states declared after the rules, in the order"; for (auto f : fperm) tag += " " + std::to_string(f);
       std::vector<std::string> feats; if (used.size() < ns) feats.push_back("unused_registered_symbol"); if (empty) feats.push_back("empty_language"); if (!dense) feats.push_back("non_dense_states");
       bool universal = ref::universalOver(A, ranks);
-      if (oi == 0) { c.count(universal ? "A_universal" : "A_not_universal"); c.count(empty ? "A_empty" : "A_nonempty"); if (used.size() < ns) c.count("class_unused_registered_symbol"); if (!empty && !universal) c.nontrivial();
+      if (oi == 0 && fp == 0) { c.count(universal ? "A_universal" : "A_not_universal"); c.count(empty ? "A_empty" : "A_nonempty"); if (used.size() < ns) c.count("class_unused_registered_symbol"); if (!empty && !universal) c.nontrivial();
         if (c.wantSample() && !empty && !universal && A0.rules.size() >= 3) c.sample(D->str(A0)); }
       try {
         ExplicitTreeAut cm = a.Complement(); ref::TA C = dom::readBack(cm); c.count("complement_calls");
@@ -46,6 +53,7 @@ static void body(Env& env, const std::string& stage, int n, const dom::Alphabet&
         std::vector<ref::Tree> ts; ref::treesUpTo(ranks, ns <= 3 ? 2 : 1, ts);
         for (auto& t : ts) { bool ia = ref::member(A, t), ic = ref::member(C, t); if (ia == ic) { c.viol("Complement", ia ? "tree_in_both" : "tree_in_neither", feats, d + "\ntree (actual ids): " + ref::treeStr(t), w); break; } }
       } catch (std::exception& e) { c.viol("Complement", "exception", feats, D->str(A0) + " | " + tag + " " + e.what(), w); }
+      }
     }
   }, 64);
 }
